@@ -338,6 +338,8 @@ pub struct Sim {
     pub detached: Vec<(usize, Entity, Entity)>,
     /// `World::clear_trackers` already called by the harness since the last server frame
     pub trackers_cleared_this_gap: bool,
+    /// pre-spawn pairs to be registered a second time before the next server frame
+    pub dup_mappings: Vec<(usize, u32, Entity, Entity)>,
     pub secrets: BTreeMap<Entity, Vec<[u8; 8]>>,
     pub unmarked_once: BTreeSet<Entity>,
     /// (client, session, server entity): mapped already, to be made visible to its owner later
@@ -525,6 +527,7 @@ impl Sim {
             dead_hidden: default(),
             detached: vec![],
             trackers_cleared_this_gap: false,
+            dup_mappings: vec![],
             secrets: default(),
             unmarked_once: default(),
             pending_show: vec![],
@@ -934,6 +937,17 @@ impl Sim {
             // the raw tick 0 is the library's "no tick yet" value on the client side: a run that wraps
             // steps over it (silently, so that the step itself does not count as a tick)
             self.server.world_mut().resource_mut::<ServerTick>().bypass_change_detection().increment_by(1);
+        }
+        for (ci, sess, se, pre) in std::mem::take(&mut self.dup_mappings) {
+            let c = &self.clients[ci];
+            if c.session == sess && self.server.world().get_entity(se).is_ok() {
+                if let Some(ce) = c.ent {
+                    if let Some(mut map) = self.server.world_mut().get_mut::<ClientEntityMap>(ce) {
+                        map.insert(se, pre);
+                        self.obs.inc("op_prespawn_pair_registered_twice");
+                    }
+                }
+            }
         }
         self.frame_no += 1;
         self.trackers_cleared_this_gap = false;
@@ -1871,6 +1885,19 @@ impl Sim {
             se
         };
         self.server.world_mut().get_mut::<ClientEntityMap>(ce).unwrap().insert(se, pre);
+        // a confirmation that is processed twice (e.g. the client's request was re-sent): the same pair
+        // is registered again, at once or a server frame later
+        match self.rng.below(8) {
+            0 => {
+                self.server.world_mut().get_mut::<ClientEntityMap>(ce).unwrap().insert(se, pre);
+                self.obs.inc("op_prespawn_pair_registered_twice");
+            }
+            1 => {
+                let sess = self.clients[ci].session;
+                self.dup_mappings.push((ci, sess, se, pre));
+            }
+            _ => {}
+        }
         // C16: the mapping is registered "no later than the tick in which the entity first becomes
         // visible": either in that tick (R5) or in an earlier one (the entity is shown later)
         let early = self.cfg.vis != Vis::All && !unauthorized && self.rng.below(2) == 0;
